@@ -488,7 +488,15 @@ class JordanCurve:
                 i += 1
         shift = 0
         for ind in range(len(self.segments)):
-            new_nodes = tuple(node for index, node in pairs if index == ind)
+            new_nodes = []
+            for index, node in pairs:
+                if index != ind:
+                    continue
+                # Repeated (or almost equal) nodes give only one division
+                if len(new_nodes) and abs(node - new_nodes[-1]) < 1e-6:
+                    continue
+                new_nodes.append(node)
+            new_nodes = tuple(new_nodes)
             if len(new_nodes) == 0:
                 continue
             self.__split_segment(ind + shift, new_nodes)
